@@ -4,6 +4,7 @@ import (
 	"fmt"
 	"net"
 	"sort"
+	"strconv"
 	"strings"
 	"sync"
 	"testing"
@@ -28,7 +29,91 @@ type batchCfg struct {
 	Concurrent int    `json:"concurrent_clients"` // 1 = sequential
 }
 
-var kinds = []string{"ok", "ok", "4xx", "5xx", "reset-mid-body", "short-body", "abort-upload", "abort-download", "limited-client", "hold"}
+var kinds = []string{"ok", "ok", "4xx", "5xx", "reset-mid-body", "short-body", "abort-upload", "abort-download", "limited-client", "hold", "hold"}
+
+// A request of kind "hold" is parked in flight until the books have been read. The phase in which it
+// is parked is drawn (see genHold); the kind string carries it:
+//
+//	hold                      the backend has received the request and has not answered anything yet
+//	hold-head/<framing>       the backend has sent its response head and no body byte (quiet event stream, long poll);
+//	                          the client has read the head
+//	hold-body/<framing>/k/n   the backend has sent the head and body parts 1..k of n; the client has read all of that
+//	hold-noread/<framing>/n   the backend has sent the head and n-1 parts of 256 KiB of an n-part body; the client has read
+//	                          the head and then stopped reading (slow client: the bytes are backed up in the proxy)
+//
+// In every phase the last body part is withheld by the backend until the release, so the exchange
+// cannot have ended: the request is in flight, whatever the socket buffers hold.
+func genHold(rt *rapid.T) string {
+	framing := rapid.SampledFrom([]string{"cl", "chunked", "close"}).Draw(rt, "hold-framing")
+	switch rapid.IntRange(0, 4).Draw(rt, "hold-phase") {
+	case 0, 1:
+		return "hold"
+	case 2:
+		if framing == "cl" {
+			// a proxy may keep the head of a response with a declared length until body bytes follow: the
+			// client cannot observe this phase, so it is generated for streamed framings only
+			framing = "chunked"
+		}
+		return "hold-head/" + framing
+	case 3:
+		n := rapid.IntRange(2, 4).Draw(rt, "hold-parts")
+		k := rapid.IntRange(1, n-1).Draw(rt, "hold-after")
+		return fmt.Sprintf("hold-body/%s/%d/%d", framing, k, n)
+	default:
+		return fmt.Sprintf("hold-noread/%s/%d", framing, rapid.IntRange(2, 5).Draw(rt, "hold-parts"))
+	}
+}
+
+const noreadPart = 256 << 10
+
+// holdScript returns the backend script of a hold-* kind and the number of body bytes the client
+// reads before it parks.
+func holdScript(kind string) (*lab.RespScript, int) {
+	f := strings.Split(kind, "/")
+	s := &lab.RespScript{Status: 200, Framing: f[1], BarrierAfter: -1, Header: []lab.KV{{K: "Content-Type", V: "text/plain"}}}
+	atoi := func(x string) int { v, _ := strconv.Atoi(x); return v }
+	prefix := 0
+	switch f[0] {
+	case "hold-head":
+		s.BarrierAfterHead = true
+		s.Parts = []int{700, 300}
+	case "hold-body":
+		k, n := atoi(f[2]), atoi(f[3])
+		size := 500
+		if f[1] == "cl" {
+			size = 16 << 10
+		}
+		for i := 0; i < n; i++ {
+			s.Parts = append(s.Parts, size+100*i)
+			if i < k {
+				prefix += size + 100*i
+			}
+		}
+		if f[1] == "cl" {
+			// only streamed framings are relayed write by write (C01); with a declared length the proxy may
+			// keep back up to its write buffers (net/http: 2 KiB + 4 KiB), so the client reads 8 KiB less
+			prefix -= 8 << 10
+		}
+		s.BarrierAfter = k - 1
+	case "hold-noread":
+		n := atoi(f[2])
+		for i := 0; i < n-1; i++ {
+			s.Parts = append(s.Parts, noreadPart)
+		}
+		s.Parts = append(s.Parts, 100)
+		s.BarrierAfter = n - 2
+	}
+	total := 0
+	for _, p := range s.Parts {
+		total += p
+	}
+	s.Body = make([]byte, total)
+	for i := range s.Body {
+		s.Body[i] = byte('a' + i%23)
+	}
+	s.BodyLen = total
+	return s, prefix
+}
 
 type tally struct {
 	sent, limited, breakerRejected, noHealthy, aborted, answered int
@@ -38,6 +123,10 @@ type tally struct {
 const ioDeadline = 10 * time.Second
 
 func scriptFor(kind string) *lab.RespScript {
+	if strings.HasPrefix(kind, "hold-") {
+		s, _ := holdScript(kind)
+		return s
+	}
 	s := &lab.RespScript{Status: 200, Framing: "cl", Body: []byte("ok"), BarrierAfter: -1, Header: []lab.KV{{K: "Content-Type", V: "text/plain"}}}
 	switch kind {
 	case "4xx":
@@ -61,8 +150,24 @@ func scriptFor(kind string) *lab.RespScript {
 }
 
 type heldReq struct {
-	exs  []*lab.Exchange
-	done chan struct{}
+	exs    []*lab.Exchange
+	done   chan struct{}
+	resume chan struct{} // closed on release: the parked client continues reading (nil for kind "hold")
+	kind   string
+}
+
+// release lets the backend continue (whichever phase it is parked in) and the client read on.
+func (h heldReq) release() {
+	for _, ex := range h.exs {
+		lab.ReleaseHold(ex)
+		lab.CloseBarrier(ex)
+	}
+	if h.resume != nil {
+		func() {
+			defer func() { _ = recover() }()
+			close(h.resume)
+		}()
+	}
 }
 
 // issue performs one request of the given kind and classifies the outcome.
@@ -73,7 +178,11 @@ func issue(l *lab.SocketLab, kind string, client int, t *tally, mu *sync.Mutex, 
 	if kind == "limited-client" {
 		xff = "7.7.7.7"
 	}
-	req := &lab.RawRequest{Method: "GET", Target: "/" + kind, Framing: "none",
+	target := "/" + kind
+	if i := strings.IndexByte(kind, '/'); i >= 0 {
+		target = "/" + kind[:i]
+	}
+	req := &lab.RawRequest{Method: "GET", Target: target, Framing: "none",
 		Header: []lab.KV{{K: "Host", V: "h"}, {K: "X-Verif-Case", V: id}, {K: "X-Forwarded-For", V: xff}}}
 	mu.Lock()
 	t.sent++
@@ -97,6 +206,60 @@ func issue(l *lab.SocketLab, kind string, client int, t *tally, mu *sync.Mutex, 
 		case out.Status == 502:
 			t.bad502++
 		}
+	}
+	if strings.HasPrefix(kind, "hold-") {
+		// parked after the response head: the client reads what the backend has sent so far (or, for
+		// hold-noread, only the head) and then waits for the release
+		_, prefixLen := holdScript(kind)
+		done, parked, resume := make(chan struct{}), make(chan struct{}), make(chan struct{})
+		go func() {
+			defer close(done)
+			cc, err := lab.Dial(l.Addr)
+			if err != nil {
+				classify(nil, err)
+				return
+			}
+			defer cc.Close()
+			defer func() {
+				for _, ex := range exs {
+					lab.CloseBarrier(ex) // whatever happened: never leave the backend waiting
+				}
+			}()
+			_ = cc.Send(req)
+			out, resp, err := cc.ReadHead("GET", ioDeadline)
+			if err != nil {
+				classify(out, err)
+				return
+			}
+			reached := false
+			for _, ex := range exs {
+				if lab.SeenOf(ex) != nil {
+					reached = true
+				}
+			}
+			var prefix []byte
+			if reached && out.Status == 200 {
+				if prefixLen > 0 {
+					_ = cc.C.SetReadDeadline(time.Now().Add(ioDeadline))
+					if prefix, err = lab.ReadN(resp, prefixLen); err != nil {
+						classify(nil, err)
+						return
+					}
+				}
+				close(parked)
+				<-resume
+			}
+			cc.Finish(out, resp, prefix, 60*time.Second)
+			classify(out, nil)
+		}()
+		select {
+		case <-done:
+		case <-parked:
+		}
+		mu.Lock()
+		*holds = append(*holds, heldReq{exs, done, resume, kind})
+		mu.Unlock()
+		return
 	}
 	switch kind {
 	case "abort-upload":
@@ -170,7 +333,7 @@ func issue(l *lab.SocketLab, kind string, client int, t *tally, mu *sync.Mutex, 
 			}
 		}
 		mu.Lock()
-		*holds = append(*holds, heldReq{exs, done})
+		*holds = append(*holds, heldReq{exs, done, nil, kind})
 		mu.Unlock()
 		return
 	default:
@@ -302,11 +465,15 @@ func evalBooks(l *lab.SocketLab, bc batchCfg, t tally, parkedPer map[int]int, de
 
 func TestC13Accounting(t *testing.T) {
 	sub := lab.Sub("accounting-batches", "rapid: lab (5 strategies x 1-3 raw TCP backends, optional unreachable backend, limiter/breaker/passive checks on or off) and a batch of 5-40 requests over kinds "+
-		"{2xx, 4xx, 5xx, backend reset mid-body, short body, client abort mid-upload, client abort mid-download, rate-limited client, request parked in a backend}, issued sequentially or by 2-64 concurrent clients over real sockets; "+
+		"{2xx, 4xx, 5xx, backend reset mid-body, short body, client abort mid-upload, client abort mid-download, rate-limited client, request parked in flight in a drawn phase (backend silent before its response head / head sent and no body byte / head and parts 1..k of n sent and read by the client / head and 256 KiB-1 MiB sent to a client that stopped reading after the head; cl, chunked or close-delimited)}, issued sequentially or by 2-64 concurrent clients over real sockets; "+
 		"books checked at quiescence while requests are parked (gauges = in flight) and again after release (gauges = 0): A1 total, A2 exactly-one-of successful/failed/rate-limited, A3 per-backend totals = the backends' own tallies and their sum = dispatched, A4 gauges in /metrics and /v1/backends; "+
 		"non-trivial = batch contains a failing/rejected/aborted kind")
 	sub.NontrivialFloor(0.70)
 	sub.Floor("has-abort", 0.10)
+	sub.Floor("parked-before-head", 0.25)
+	sub.Floor("parked-after-head", 0.12)
+	sub.Floor("parked-mid-body", 0.12)
+	sub.Floor("parked-client-not-reading", 0.12)
 	lab.Assume("L2 socket lab; Helios-generated answers are classified by their documented text (rate limit / circuit breaker / no healthy backend); a quiescent reading is two equal consecutive metric reads with no backend handler running (3 s budget, else the batch is skipped and counted)")
 	lab.Check(t, sub, 1200, 24000, func(rt *rapid.T) {
 		bc := batchCfg{Strategy: rapid.SampledFrom(lab.Strategies).Draw(rt, "strategy"), Backends: rapid.IntRange(1, 3).Draw(rt, "backends"),
@@ -317,6 +484,9 @@ func TestC13Accounting(t *testing.T) {
 		batch := make([]string, n)
 		for i := range batch {
 			batch[i] = rapid.SampledFrom(kinds).Draw(rt, "kind")
+			if batch[i] == "hold" {
+				batch[i] = genHold(rt)
+			}
 		}
 		l, err := lab.NewSocketLab(bc.Strategy, lab.SocketOpts{Backends: bc.Backends + deadCount(bc), Mutate: func(cfg *config.Config) {
 			if bc.Dead {
@@ -385,9 +555,7 @@ func TestC13Accounting(t *testing.T) {
 		viol := checkBooks(l, bc, tl, parkedPer, bc.Dead)
 		if viol == "" {
 			for _, h := range stillHeld {
-				for _, ex := range h.exs {
-					lab.ReleaseHold(ex)
-				}
+				h.release()
 			}
 			for _, h := range stillHeld {
 				select {
@@ -406,15 +574,13 @@ func TestC13Accounting(t *testing.T) {
 			viol = "with requests parked: " + viol
 		}
 		for _, h := range stillHeld {
-			for _, ex := range h.exs {
-				lab.ReleaseHold(ex)
-			}
+			h.release()
 		}
 		nt, hasAbort := false, false
 		ks := map[string]bool{}
 		for _, k := range batch {
 			ks[k] = true
-			if k != "ok" && k != "hold" {
+			if k != "ok" && !strings.HasPrefix(k, "hold") {
 				nt = true
 			}
 			if strings.HasPrefix(k, "abort") || k == "reset-mid-body" || k == "short-body" {
@@ -427,6 +593,24 @@ func TestC13Accounting(t *testing.T) {
 		}
 		if len(stillHeld) > 0 {
 			labels = append(labels, "gauge-read-while-parked")
+			ph := map[string]bool{}
+			for _, h := range stillHeld {
+				switch {
+				case h.kind == "hold":
+					ph["parked-before-head"] = true
+				case strings.HasPrefix(h.kind, "hold-head"):
+					ph["parked-after-head"] = true
+				case strings.HasPrefix(h.kind, "hold-body"):
+					ph["parked-mid-body"] = true
+				default:
+					ph["parked-client-not-reading"] = true
+				}
+			}
+			for _, p := range []string{"parked-before-head", "parked-after-head", "parked-mid-body", "parked-client-not-reading"} {
+				if ph[p] {
+					labels = append(labels, p)
+				}
+			}
 		}
 		if tl.breakerRejected > 0 {
 			labels = append(labels, "breaker-rejected")
